@@ -642,16 +642,10 @@ class CompositeDataSource(DataSource):
         if not self.has_data_sources():
             raise AttributeError("CompositeDataSource has no data sources")
 
-        results = []
-        for ds in self.data_sources:
-            results.extend(ds.related_to(*args, **kwargs))
-
-        # remove exact duplicates (where duplicates are STIX 2.0
-        # objects with the same 'id' and 'modified' values)
-        if len(results) > 0:
-            results = deduplicate(results)
-
-        return results
+        # Navigate on the federation as a whole (relationships() and query()
+        # of this composite reach every data source), so that a relationship
+        # held by one data source leads to objects held by another.
+        return super(CompositeDataSource, self).related_to(*args, **kwargs)
 
     def add_data_source(self, data_source):
         """Attach a DataSource to CompositeDataSource instance
